@@ -68,7 +68,10 @@ def run_inprocess(case, tmp):
         argv += ["-f", dp]
         stdin = io.StringIO("")
     else:
-        stdin = io.TextIOWrapper(io.BytesIO(data), encoding="utf-8")
+        # sys.stdin as the interpreter sets it up: UTF-8 normally, the locale's encoding with surrogateescape on a
+        # host whose locale is not UTF-8
+        stdin = (io.TextIOWrapper(io.BytesIO(data), encoding="ascii", errors="surrogateescape") if o.get("posix_locale")
+                 else io.TextIOWrapper(io.BytesIO(data), encoding="utf-8"))
     op = None
     if o.get("out_file"):
         op = os.path.join(tmp, "out.json")
@@ -146,7 +149,14 @@ def run_subprocess(case, tmp):
             with open(op, "w", encoding="utf-8") as f:
                 f.write(STALE)
         argv += ["-o", op]
-    p = subprocess.run(argv, input=stdin, capture_output=True, timeout=120)
+    env = None
+    if o.get("posix_locale"):
+        # a host whose locale is not UTF-8 (here: the C locale with Python's UTF-8 mode and locale coercion off);
+        # JSON documents are UTF-8 all the same (RFC 8259 8.1)
+        argv = [a for a in argv if a not in ("-X", "utf8")]
+        env = dict(os.environ, LC_ALL="C", LANG="C", PYTHONUTF8="0", PYTHONCOERCECLOCALE="0")
+        env.pop("PYTHONIOENCODING", None)
+    p = subprocess.run(argv, input=stdin, capture_output=True, timeout=120, env=env)
     res = {"exit": p.returncode, "stdout": p.stdout.decode("utf-8", "replace"), "stderr": p.stderr.decode("utf-8", "replace"),
            "escaped": "Traceback" if b"Traceback (most recent call last)" in p.stderr else None, "outfile": None}
     if op is not None and os.path.exists(op):
@@ -178,9 +188,9 @@ def expected_of(case):
         return "error", "query:" + type(e).__name__
     try:
         data = doc_bytes(case)
-        # a document file is handed to json as bytes (json's own encoding detection applies); standard
-        # input is decoded as UTF-8 text first
-        doc = json.loads(data) if case["opts"].get("doc_file") else json.loads(data.decode("utf-8"))
+        # the document is JSON text in bytes, from a file or from standard input alike (json's own detection of
+        # UTF-8/16/32 applies); the locale has no say in it
+        doc = json.loads(data)
     except UnicodeDecodeError:
         return "error", "document:undecodable"
     except RecursionError:
@@ -329,11 +339,16 @@ def run_shard(spec, shard):
             case["qpost"] = r.choice(["", "\n", "\r\n", " \n", "\n\n"])
         if opts["query_file"] and any(ord(c) > 0x7F for c in case["q"]) and False:
             opts["query_file"] = False
+        if r.random() < 0.3 and all(ord(c) < 0x80 for c in case["q"]):
+            opts["posix_locale"] = True     # only meaningful for subprocess runs; the query itself stays ASCII
         with default_recursion_limit():
             exp, detail = expected_of(case)
         oc = (exp if exp == "ok" else detail.split(":")[0], tuple(sorted(k for k, v in opts.items() if v)))
         if seen_classes.get(oc[0], 0) < spec["sub"] // 4 + 1:
             seen_classes[oc[0]] = seen_classes.get(oc[0], 0) + 1
+            case["subprocess"] = True
+        elif opts.get("posix_locale") and seen_classes.get("posix", 0) < spec["sub"]:
+            seen_classes["posix"] = seen_classes.get("posix", 0) + 1
             case["subprocess"] = True
         nt = exp == "error" or (exp == "ok" and len(detail) > 0)
         shard.sets["(options,outcome)-pairs"].add(hash(oc) & 0xFFFFFFFFFFFF)
